@@ -37,6 +37,7 @@ def restart(scen, info, mode):
     if hasattr(target, "_initialize_searcher"):
         target._initialize_searcher()
     searcher = target.searcher
+    rng_before = _rng_digest(searcher)
     state = pickle.loads(pickle.dumps(searcher.get_state()))
     fresh, _ = zoo.build_scheduler(scen)
     fresh_target = fresh.scheduler if scen["kind"] == "median" and hasattr(fresh, "scheduler") else fresh
@@ -45,6 +46,22 @@ def restart(scen, info, mode):
     clone = fresh_target.searcher.clone_from_state(state)
     clone.configure_scheduler(target)
     target._searcher = clone
+    rng_after = _rng_digest(clone)
+    if rng_before is not None and rng_before != rng_after:
+        return "the restored searcher's random generator is not in the state of the original's (%s vs %s)" % (rng_after, rng_before)
+    return None
+
+
+def _rng_digest(searcher):
+    """Digest of the complete state of the searcher's own generator (key, position and cached Gaussian)."""
+    import hashlib
+
+    rs = getattr(searcher, "random_state", None)
+    if rs is None or not hasattr(rs, "get_state"):
+        return None
+    st = rs.get_state(legacy=False)
+    return hashlib.sha256(repr((st["bit_generator"], st["state"]["key"].tolist(), st["state"]["pos"], st["has_gauss"],
+                                st["gauss"] if st["has_gauss"] else 0.0)).encode()).hexdigest()[:16]
 
 
 def run(scen, spec, props):
@@ -70,7 +87,7 @@ def run(scen, spec, props):
             return
         state["done"] = True
         try:
-            restart(scen, info, mode)
+            state["rng"] = restart(scen, info, mode)
         except BaseException as e:
             import traceback
 
@@ -104,6 +121,9 @@ def run(scen, spec, props):
         res["viol"].append(V("C16", "R2.restore_raises", trA, "restore (%s) at call boundary %d of %d raised %s" % (mode, p, H, state["err"]),
                              None, mode=mode, where=state.get("where"), searcher=_searcher_kind(scen)))
         return res
+    if state.get("rng"):
+        res["viol"].append(V("C16", "R3.restored_rng_differs", trA, "restore (%s) at call boundary %d of %d: %s" % (mode, p, H, state["rng"]),
+                             None, mode=mode, searcher=_searcher_kind(scen)))
     dB = common.decisions(trB)
     gp_state_route = mode == "state" and scen["kind"] not in zoo.MODEL_FREE
     if gp_state_route:
